@@ -352,7 +352,6 @@ func (e *Contend) Run() {
 		w := Walk(e.db.N.VerifStore(), nitroInsCmp(o.KV), nitro.ItemSize, 1<<30)
 		if got, want := e.db.A.LiveCount(), 2*w.Level0Linked+2; got != want {
 			e.problem("C17", "idle-unfreed", "idle database: %d allocator blocks live, structure accounts for %d", got, want)
-			return
 		}
 	}
 	if e.db.A != nil {
